@@ -114,6 +114,15 @@ class ISet:
 NOTIMPL = Sym("NotImplemented")
 
 
+PURE_LIBRARY = {
+    "unicodedata.normalize", "unicodedata.category", "unicodedata.name", "unicodedata.is_normalized", "unicodedata.east_asian_width",
+    "math.ceil", "math.floor", "math.sqrt", "math.log", "math.log2", "math.log10", "math.isinf", "math.isnan", "math.fsum", "math.gcd", "math.trunc",
+    "textwrap.dedent", "textwrap.indent", "textwrap.shorten", "html.escape", "html.unescape", "shlex.quote", "string.capwords",
+    "fnmatch.fnmatchcase", "fnmatch.translate", "urllib.parse.quote", "urllib.parse.unquote", "posixpath.normpath", "posixpath.basename",
+    "posixpath.dirname", "posixpath.split", "posixpath.splitext", "posixpath.commonprefix", "posixpath.isabs",
+}
+
+
 class T(tuple):
     """internal marker value (class object, builtin, external, bound native / symbolic method ...): a tuple for the
     interpreter's own dispatch, but never a Python tuple of the interpreted program"""
@@ -1545,6 +1554,15 @@ class MiniInterp:
         if isinstance(f, Sym) and f.parent is not None:
             f.parent[0].fields.pop(f.parent[1], None)
             f = T("method", f.parent[0], f.parent[1])
+        if isinstance(f, T) and f and f[0] == "external" and f[1].replace(":", ".") in PURE_LIBRARY and not kwargs \
+                and all(self.plain(a) for a in args):
+            # a pure function of the standard library on plain values: the library's own result
+            mod_, _, fn_ = f[1].replace(":", ".").rpartition(".")
+            import importlib
+            try:
+                return getattr(importlib.import_module(mod_), fn_)(*args)
+            except (TypeError, ValueError, KeyError, IndexError, OverflowError) as e:
+                raise PyRaise(type(e).__name__, n)
         if self.hook:
             r = self.hook(self, "call", f, args, kwargs, n, fi)
             if r is not NotImplemented:
@@ -1585,7 +1603,7 @@ class MiniInterp:
                 del obj[hits[0]]
                 return None
             if attr in ("join", "extend", "update", "fromkeys"):
-                args = [a.rest() if isinstance(a, (_Iter, LazyIter)) else list(a.xs) if isinstance(a, ISet)
+                args = [a.rest() if isinstance(a, (_Iter, LazyIter)) else list(self.iterate(a)) if isinstance(a, ISet)
                         else list(self.iterate(a)) if isinstance(a, Sym) and not isinstance(obj, dict) else a for a in args]
             try:
                 if isinstance(obj, dict) and attr in ("get", "pop", "setdefault") and args:
